@@ -6,9 +6,13 @@ package main
 
 import (
 	"bytes"
+	"context"
 	"encoding/binary"
 	"flag"
 	"fmt"
+	"os"
+	"os/exec"
+	"path/filepath"
 	"sort"
 	"sync"
 	"time"
@@ -24,6 +28,8 @@ type adapter struct {
 	exact  int                 // >0: entry point documents a panic for any other length; only this length is supplied
 	cost   int                 // relative cost per call (1 = microseconds, 100 = tens of milliseconds)
 	budget int                 // max inputs (0 = default by cost)
+	deep   []func(n int) []byte // generators of deeply nested inputs (recursive-descent parsers); each is run in a child process,
+	// because running out of stack is a fatal error that recover() cannot catch
 }
 
 type line struct {
@@ -224,7 +230,26 @@ func main() {
 	list := flag.Bool("list", false, "print adapter names and covered entry points")
 	replay := flag.String("replay", "", "adapter name to replay one input (-input hex)")
 	input := flag.String("input", "", "")
+	oneshot := flag.String("oneshot", "", "adapter name: read the input from -inputfile, call the adapter once, exit 0 (child process of the deep-nesting class)")
+	inputfile := flag.String("inputfile", "", "")
 	flag.Parse()
+	if *oneshot != "" {
+		b, err := os.ReadFile(*inputfile)
+		call := deepCalls[*oneshot]
+		if err != nil || call == nil {
+			os.Exit(3)
+		}
+		func() {
+			defer func() {
+				if r := recover(); r != nil {
+					fmt.Fprintf(os.Stderr, "panic: %v\n", r)
+					os.Exit(4)
+				}
+			}()
+			call(b)
+		}()
+		os.Exit(0)
+	}
 	ads := allAdapters(*seed)
 	if *list {
 		for _, a := range ads {
@@ -304,6 +329,51 @@ func main() {
 					ln.Accepted++
 				default:
 					ln.Rejected++
+				}
+			}
+			// deeply nested inputs, one child process each
+			for gi, gen := range a.deep {
+				for _, n := range []int{10000, 1000000} {
+					ln := agg["deep-nesting"]
+					if ln == nil {
+						ln = &line{Ev: "mut", Adapter: a.name, Class: "deep-nesting"}
+						agg["deep-nesting"] = ln
+						order = append(order, "deep-nesting")
+					}
+					ln.Total++
+					f, err := os.CreateTemp(filepath.Dir(*out), "deep-*.bin")
+					if err != nil {
+						vlib.Die("temp file: %v", err)
+					}
+					in := gen(n)
+					_, _ = f.Write(in)
+					f.Close()
+					ctx, cancel := context.WithTimeout(context.Background(), 120*time.Second)
+					cmd := exec.CommandContext(ctx, os.Args[0], "-oneshot", a.name, "-inputfile", f.Name(), "-seed", fmt.Sprint(*seed))
+					var stderr bytes.Buffer
+					cmd.Stderr = &stderr
+					err = cmd.Run()
+					timedOut := ctx.Err() == context.DeadlineExceeded
+					cancel()
+					os.Remove(f.Name())
+					switch {
+					case timedOut:
+						ln.Timeouts++
+						if ln.Note == "" {
+							ln.Note, ln.InLen = fmt.Sprintf("generator %d, depth %d: no return within 120 s", gi, n), len(in)
+						}
+					case err != nil:
+						ln.Panics++
+						if ln.Note == "" {
+							msg := stderr.String()
+							if len(msg) > 300 {
+								msg = msg[:300]
+							}
+							ln.Note, ln.InLen = fmt.Sprintf("generator %d, depth %d: the process died: %v: %s", gi, n, err, msg), len(in)
+						}
+					default:
+						ln.Rejected++
+					}
 				}
 			}
 			sort.Strings(order)
